@@ -35,7 +35,7 @@ FUNCTIONS = [
     "tf_pwa/angle.py:LorentzVector.get_metric", "tf_pwa/angle.py:LorentzVector.neg", "tf_pwa/angle.py:Vector3.norm2", "tf_pwa/angle.py:Vector3.dot",
     "tf_pwa/data_trans/dalitz.py:generate_p", "tf_pwa/data_trans/dalitz.py:_generate_fun0", "tf_pwa/data_trans/dalitz.py:Dalitz.generate_p",
     "tf_pwa/data_trans/helicity_angle.py:generate_p", "tf_pwa/data_trans/helicity_angle.py:create_rotate_p",
-    "tf_pwa/angle.py:EulerAngle.angle_zx_z_getx", "tf_pwa/angle.py:Vector3.cross_unit", "tf_pwa/angle.py:Vector3.unit", "tf_pwa/angle.py:Vector3.angle_from",
+    "tf_pwa/cal_angle.py:cal_chain_boost", "tf_pwa/angle.py:EulerAngle.angle_zx_z_getx", "tf_pwa/angle.py:Vector3.cross_unit", "tf_pwa/angle.py:Vector3.unit", "tf_pwa/angle.py:Vector3.angle_from",
 ]
 ASSUMPTIONS = [
     "reals stand in for doubles",
@@ -52,7 +52,7 @@ def bounds(tier):
 
 
 def jobs(tier, seed):
-    out = [("boost_roundtrip",), ("boost_invariants",), ("boost_matrix",), ("rest_vector",), ("rotation",), ("dalitz",), ("helicity_vertex",), ("euler_top",)]
+    out = [("boost_roundtrip",), ("boost_invariants",), ("boost_matrix",), ("rest_vector",), ("rotation",), ("dalitz",), ("helicity_vertex",), ("euler_top",), ("chain_boost",)]
     return out
 
 
@@ -295,6 +295,87 @@ def job_euler_top(ss):
     ss.prove("euler.x_axis_orthogonal", F, far(dot.t, T.ZERO, 0), key="euler_top", payload=pay, timeout=60)
     ss.prove("euler.x_axis_unit", F, far((xv[0] * xv[0] + xv[1] * xv[1] + xv[2] * xv[2]).t, T.ONE, 0), key="euler_top", payload=pay, timeout=60)
     ss.mutant("euler.mutant", F, far(sa.t, (-sp).t, 0))
+
+
+def job_chain_boost(ss):
+    """cal_chain_boost: every momentum used in a decay vertex is the particle's momentum boosted successively
+    into each ancestor's rest frame along the chain (boost kernel replaced by an uninterpreted recorder)"""
+    import tf_pwa.cal_angle as CA
+    from tf_pwa.amp import DecayChain, get_decay, get_particle
+    import tensorflow as tf
+
+    def R(a, b):
+        at = [term_of(e) for e in a.arr.reshape(-1)]
+        bt = [term_of(e) for e in b.arr.reshape(-1)]
+        return tensor_of([[SymReal(T.uf("R%d" % i, *at, *bt)) for i in range(4)]])
+
+    uid = [0]
+
+    def P(n):
+        uid[0] += 1
+        return get_particle("%s_%d" % (n, uid[0]), mass=1.0)
+
+    def topologies():
+        A, B, C, D, E, F = [P(n) for n in "ABCDEF"]
+        Rr, Sr, Tr = P("R"), P("S"), P("T")
+        dec = get_decay
+        yield "3body", DecayChain([dec(A, [Rr, C]), dec(Rr, [B, D])])
+        A, B, C, D, E, F = [P(n) for n in "ABCDEF"]
+        Rr, Sr, Tr = P("R"), P("S"), P("T")
+        yield "4seq", DecayChain([dec(A, [Rr, C]), dec(Rr, [Sr, D]), dec(Sr, [B, E])])
+        A, B, C, D, E, F = [P(n) for n in "ABCDEF"]
+        Rr, Sr, Tr = P("R"), P("S"), P("T")
+        yield "4branch", DecayChain([dec(A, [Rr, Sr]), dec(Rr, [B, C]), dec(Sr, [D, E])])
+        A, B, C, D, E, F = [P(n) for n in "ABCDEF"]
+        Rr, Sr, Tr = P("R"), P("S"), P("T")
+        yield "5branch", DecayChain([dec(A, [Rr, Sr]), dec(Rr, [Tr, C]), dec(Tr, [B, F]), dec(Sr, [D, E])])
+        A, B, C, D, E, F = [P(n) for n in "ABCDEF"]
+        Rr, Sr, Tr = P("R"), P("S"), P("T")
+        yield "5seq", DecayChain([dec(A, [Rr, C]), dec(Rr, [Sr, D]), dec(Sr, [Tr, E]), dec(Tr, [B, F])])
+
+    class LVProxy:
+        def __getattr__(self, k):
+            return getattr(CA_LV, k)
+
+        rest_vector = staticmethod(R)
+
+    CA_LV = CA.LorentzVector
+    CA.LorentzVector = LVProxy()
+    try:
+        for name, chain in topologies():
+            parts = [chain.top] + list(chain.inner) + list(chain.outs)
+            data = {p: {"p": tensor_of([[S.real("p_%s_%d" % (str(p), i)) for i in range(4)]])} for p in parts}
+            got = CA.cal_chain_boost(data, chain)
+            producer = {}
+            for d in chain:
+                for o in d.outs:
+                    producer[o] = d
+
+            def spec(d, j, memo={}):
+                key = (id(d), id(j), name)
+                if key in memo:
+                    return memo[key]
+                if d.core == chain.top:
+                    r = R(data[d.core]["p"], data[j]["p"])
+                else:
+                    par = producer[d.core]
+                    r = R(spec(par, d.core), spec(par, j))
+                memo[key] = r
+                return r
+
+            bad = []
+            n = 0
+            for d in chain:
+                for j in d.outs:
+                    n += 1
+                    g = got[d]["rest_p"][j]
+                    e = spec(d, j)
+                    if any(term_of(x) is not term_of(y) for x, y in zip(g.arr.reshape(-1), e.arr.reshape(-1))):
+                        bad.append("%s:%s" % (d, j))
+            ss.concrete("chain_boost.structure[%s]" % name, not bad, key="chain_boost.structure", payload=dict(kind="chain_boost", topology=name, bad=bad),
+                        describe="each daughter momentum of each vertex is boosted through exactly the chain of ancestor rest frames (%d vertex-daughter pairs; identity of uninterpreted boost applications)" % n)
+    finally:
+        CA.LorentzVector = CA_LV
 
 
 def run_job(job):
